@@ -180,7 +180,7 @@ def preAmp (puny : Str → Str) (h : Str) : Str :=
   subdomainSub true (lower (decodePunycodeHostname puny h))
 
 theorem normHost_eq (puny : Str → Str) (h : Str) :
-    normHost puny fpOpts h = stripAmpPrefix puny (preAmp puny h) := by
+    normHost puny fpOpts h = stripAmpPrefix puny true (preAmp puny h) := by
   unfold normHost preAmp
   by_cases he : h.isEmpty
   · have : h = [] := by cases h <;> simp_all
